@@ -181,6 +181,19 @@ def step (st : St) (w : List String) : St × String :=
     match evalLine st body with
     | some (line, _, _) => (st, line)
     | none => (st, "bad-op")
+  | "agg" :: fnName :: rest =>
+    let fn? : Option Impl.AggFn := match fnName with
+      | "SUM" => some .sum | "AVERAGE" => some .average | "COUNT" => some .count | "COUNTA" => some .counta
+      | "MIN" => some .min | "MAX" => some .max | "PRODUCT" => some .product | _ => none
+    match fn?, splitBar rest with
+    | some fn, keys :: _ =>
+      (match keys.mapM hexBytes with
+       | some ks =>
+         let ci := ks.map fun k => (st.lookI k).getD .empty
+         let cs := ks.map fun k => (st.lookS k).getD .blank
+         (st, showRes (Impl.aggregate fn ci) ++ " S=" ++ showSpec (Spec.aggregate fn cs))
+       | none => (st, "bad-op"))
+    | _, _ => (st, "bad-op")
   | "evt" :: body =>
     match splitBar body with
     | toks :: _ =>
